@@ -466,6 +466,51 @@ def ip : P String := do
   if !walked then return (vd.diffIf true s!"IncrementalPruning replay_diverged the library's level is not what its own loop, walked with its own kernels, produces").render
   return (vd.diffIf true s!"IncrementalPruning model_differs sizes model={mlevel.length} impl={level.length}").render
 
+structure LPCall where
+  uLen : Nat
+  v : List Rat
+  ans : Option (List Rat)
+
+def lpCallP : P LPCall := do
+  let u ← P.nat; let v ← P.qs; let has ← P.bool
+  if has then do let b ← P.qs; pure ⟨u, v, some b⟩ else pure ⟨u, v, none⟩
+
+def closeVec (x y : List Rat) : Bool := x.length == y.length && (x.zip y).all (fun p => closeQ tol p.1 p.2)
+
+/-- `wt pomdp prev | level | walked {nCalls {uLen v has [b]}*}*A in out` : one Witness timestep against `witnessAction` (per action)
+    and the final prune, the witness LP being the oracle whose answers the harness logged along the library's own loop
+    (looked up by |U[a]| and the agenda vector) -/
+def wt : P String := do
+  let m ← pomdpP; let prev ← vlistP; P.bar
+  let level ← vlistP; P.bar
+  let walked ← P.bool
+  let calls ← P.rep (P.list lpCallP) m.A
+  let pin ← vlistP; let pout ← vlistP; P.eof
+  let vd : Verdict := { tag := "wt" }
+  let vd := match checkLevels m prev [level] with
+    | some (_, what, dev) => vd.failIf true s!"Witness {what} dev={qstr dev}"
+    | none => vd
+  let vd := vd.failIf (!(subMultiset pout pin)) "Pruner entries_not_moved_whole"
+  if !vd.fails.isEmpty then return vd.render
+  let exact := levelB eqQ m prev level
+  let witOf := fun (a : Nat) (U : VList) (v : List Rat) =>
+    match (calls.getD a []).find? (fun c => c.uLen == U.length && closeVec c.v v) with
+    | some c => c.ans.map bfun
+    | none => none
+  let fuel := (calls.foldl (fun n cs => max n cs.length) 0) + 2
+  let us := (List.range m.A).map (fun a => witnessAction m (witOf a) fuel prev a)
+  let mw := us.flatMap id
+  let mlevel := if sameVList mw pin then pout else mw      -- the final prune's logged answer
+  -- conditioning: the model re-derives the best vector at every witness point the LP returned
+  let cond := (List.range m.A).foldl (fun (c : Cond) a =>
+      (calls.getD a []).foldl (fun c call => match call.ans with
+        | some b => condRow m prev c (exact && dyadicList b) (bfun b) a
+        | none => c) c) {}
+  if sameVList mlevel level then return ({ vd with tag := (if walked then "wt" else "wt unwalked") ++ (if cond.ties > 0 then " ties" else "") }).render
+  if !walked then return (vd.diffIf true s!"Witness replay_diverged the library's level is not what its own loop, walked with its own kernels, produces").render
+  if illConditioned cond then return s!"skip ill_conditioned wt minMargin={qstr cond.minM} ties={cond.ties}"
+  return (vd.diffIf true s!"Witness model_differs sizes model={us.map (·.length)} unpruned-impl={pin.length} impl={level.length} minMargin={qstr cond.minM}").render
+
 /-- `mk S A O | vf | vf` : `makeValueFunction(S)` and the value function of `Policy(S, A, O)` are the model's `zeroVF S` -/
 def mk : P String := do
   let S ← P.nat; let _A ← P.nat; let _O ← P.nat; P.bar
@@ -490,6 +535,7 @@ def handle (toks : List String) : String :=
     | "pbviw" :: rest => P.run pbviw rest
     | "mk" :: rest => P.run mk rest
     | "ip" :: rest => P.run ip rest
+    | "wt" :: rest => P.run wt rest
     | "wv" :: rest => P.run wv rest
     | "perseus" :: rest => P.run perseus rest
     | "ls" :: rest => P.run ls rest
